@@ -1,5 +1,9 @@
 /- Line-protocol handlers for C20 (op prefix `sd.`): the sixteen serde timestamp modules, the
-`TimeDelta` tuple form, weekday / month names. -/
+`TimeDelta` tuple form, weekday / month names, and the string forms:
+  * `sd.nd.ser <yof>` / `sd.nt.ser <secs> <frac>` / `sd.ndt.ser <yof> <secs> <frac>` / `sd.dt.ser <yof> <secs>
+    <frac> <off>`: the text `Serialize` hands to `collect_str` (`x<hex>` | `err` | `panic`);
+  * `sd.nd.de x<text>` / `sd.nt.de` / `sd.ndt.de` / `sd.dt.de fixed|utc x<text>`: what `visit_str` answers
+    (`ok <value>` | `err` | `panic`). -/
 import Chrono.Drv.Util
 import Chrono.Model.SerdeTs
 import Chrono.Model.SerdeStr
@@ -48,6 +52,12 @@ def showODT : Option NaiveDT → String
   | some dt => showDT dt
   | none => "none"
 
+def showW (w : Format.W) : String :=
+  match w with
+  | .ok (some b) => hexEncode b
+  | .ok none => "err"
+  | .panic => "panic"
+
 def wd? (s : String) : Option M.Weekday := (nat? s).bind (fun i => M.Weekday.all[i]?)
 def mo? (s : String) : Option Month := (nat? s).bind (fun i => Month.all[i]?)
 
@@ -68,11 +78,26 @@ def handle (op : String) (args : List String) : Option String :=
   | "sd.deo", t :: u :: w => some (match tg? t, unit? u, wopt? w with
       | some t, some u, some w => showRes (showSR showODT) (deserialize_option t u w)
       | _, _, _ => bad)
+  | "sd.nd.ser", [y] => some (match int? y with
+      | some y => showW (NaiveDateStr.serialize ⟨y⟩)
+      | none => bad)
+  | "sd.nt.ser", [s, f] => some (match int? s, int? f with
+      | some s, some f => showW (NaiveTimeStr.serialize ⟨s, f⟩)
+      | _, _ => bad)
+  | "sd.ndt.ser", [y, s, f] => some (match dt? y s f with
+      | some dt => showW (NaiveDateTimeStr.serialize dt)
+      | none => bad)
+  | "sd.nd.de", [x] => some (match hexDecode x with
+      | some b => showRes (showSR fun (d : M.Date) => toString d.yof) (NaiveDateStr.visit_str b)
+      | none => bad)
+  | "sd.nt.de", [x] => some (match hexDecode x with
+      | some b => showRes (showSR fun (t : M.Time) => s!"{t.secs} {t.frac}") (NaiveTimeStr.visit_str b)
+      | none => bad)
+  | "sd.ndt.de", [x] => some (match hexDecode x with
+      | some b => showRes (showSR showDT) (NaiveDateTimeStr.visit_str b)
+      | none => bad)
   | "sd.dt.ser", [y, s, f, o] => some (match dt? y s f, int? o with
-      | some dt, some o => (match DateTimeStr.serialize ⟨dt, o⟩ with
-        | .ok (some b) => hexEncode b
-        | .ok none => "err"
-        | .panic => "panic")
+      | some dt, some o => showW (DateTimeStr.serialize ⟨dt, o⟩)
       | _, _ => bad)
   | "sd.dt.de", [t, x] => some (match hexDecode x with
       | some b =>
